@@ -124,6 +124,60 @@ def run(ctx, replay=None):
             compare(ctx, case, 'shared MetricSpace used twice', tb, tb2, {'what': 'shared-metricspace'})
             ok1 = compare(ctx, case, 'raw coordinates with absolute maxlag (sparse) vs dense MetricSpace', ta, tb, sig_sparse)
             compare(ctx, case, 'pre-computed truncated MetricSpace vs dense MetricSpace', tc, tb, sig_sparse)
+            # ---- cross-variogram (two value columns) on the three ways of supplying the distances
+            if case['bin_func'] in ('even', 'uniform') and rng.random() < 0.4:
+                try:
+                    v2 = np.column_stack((v, v[::-1] * 0.5 + np.arange(len(v)) % 3))
+                    xa = triple(Variogram(c, v2, **kw))
+                    xb = triple(Variogram(MetricSpace(c.copy(), 'euclidean'), v2, **kw))
+                    xc = triple(Variogram(MetricSpace(c.copy(), 'euclidean', max_dist=case['maxlag']), v2, **kw))
+                    compare(ctx, dict(case, cross=True), 'cross-variogram: raw coordinates with absolute maxlag vs dense MetricSpace', xa, xb, dict(sig_sparse, cross=True) if sig_sparse.get('what') != 'sparse-vs-dense' else {'what': 'sparse-vs-dense', 'cross': True})
+                    compare(ctx, dict(case, cross=True), 'cross-variogram: truncated MetricSpace vs dense MetricSpace', xc, xb, dict(sig_sparse, cross=True) if sig_sparse.get('what') != 'sparse-vs-dense' else {'what': 'sparse-vs-dense', 'cross': True})
+                    ctx.tests['cross_three_way'] = ctx.tests.get('cross_three_way', 0) + 1
+                except Exception as e:
+                    ctx.count('cross_rejected', type(e).__name__)
+            # ---- a MetricSpace describes the points it was built from, also when its distances are computed later
+            if rng.random() < 0.3:
+                try:
+                    for md_ in (None, case['maxlag']):
+                        buf = c.copy()
+                        msb = MetricSpace(buf, 'euclidean', max_dist=md_)
+                        buf *= 0.5                     # the caller re-uses its array before the space is used for the first time
+                        late = triple(Variogram(msb, v, **kw))
+                        compare(ctx, dict(case, space_built_then_caller_rescaled=True, max_dist=md_), 'MetricSpace built before the caller rescaled its array vs the original points', late, tb if md_ is None else tc,
+                                {'what': 'space-aliases-caller'})
+                    ctx.tests['late_space_runs'] = ctx.tests.get('late_space_runs', 0) + 1
+                except Exception as e:
+                    ctx.count('late_space_rejected', type(e).__name__)
+            # ---- one not yet evaluated MetricSpace shared by a variogram with an absolute maxlag and, afterwards, by one without
+            if rng.random() < 0.3:
+                try:
+                    shared = MetricSpace(c.copy(), 'euclidean')
+                    first_ = Variogram(shared, v, **kw)
+                    _ = first_.experimental
+                    kw_none = dict(kw, maxlag=None)
+                    later = triple(Variogram(shared, v, **kw_none))
+                    alone = triple(Variogram(MetricSpace(c.copy(), 'euclidean'), v, **kw_none))
+                    compare(ctx, dict(case, shared_space_history='absolute maxlag first, then none'), 'a MetricSpace used first with an absolute maxlag, then without one, vs a space of its own', later, alone,
+                            {'what': 'shared-space-truncated-by-first-user'})
+                    if shared.max_dist is not None:
+                        ctx.problem('oracle', 'a variogram with an absolute maxlag changed max_dist of the MetricSpace it was given', case, {'max_dist': shared.max_dist}, {'what': 'shared-space-mutated'})
+                    ctx.tests['shared_space_maxlag_histories'] = ctx.tests.get('shared_space_maxlag_histories', 0) + 1
+                except Exception as e:
+                    ctx.count('shared_maxlag_rejected', type(e).__name__)
+            # ---- the metric exchanged in place towards euclidean under a relative maxlag: same as constructing with it
+            if case['bin_func'] in ('even', 'uniform') and rng.random() < 0.3:
+                try:
+                    rel = rng.choice([0.5, 'median', 'mean'])
+                    kw_rel = dict(kw, maxlag=rel)
+                    Vc = Variogram(c, v, **dict(kw_rel, dist_func='cityblock'))
+                    _ = Vc.experimental
+                    Vc.set_dist_function('euclidean')
+                    compare(ctx, dict(case, maxlag_used=rel), 'cityblock switched to euclidean in place (relative maxlag) vs a dense euclidean MetricSpace', triple(Vc),
+                            triple(Variogram(MetricSpace(c.copy(), 'euclidean'), v, **kw_rel)), {'what': 'metric-switched-in-place'})
+                    ctx.tests['metric_switch_runs'] = ctx.tests.get('metric_switch_runs', 0) + 1
+                except Exception as e:
+                    ctx.count('metric_switch_rejected', type(e).__name__)
             # ---- the maximum lag lowered on the living instances (all pairs needed are still stored): same result as a fresh dense one
             if case['bin_func'] in ('even', 'uniform') and rng.random() < 0.5:
                 m2 = math.floor(case['maxlag'] * 0.75 * 8) / 8.0 + 1.0 / 64
